@@ -28,6 +28,7 @@ import (
 	"strconv"
 	"strings"
 	"sync"
+	"time"
 
 	"verif/seq/common"
 	"verif/vlib"
@@ -253,6 +254,7 @@ func main() {
 	if v, _ := strconv.Atoi(os.Getenv("VERIF_C07_WORKERS")); v > 0 {
 		W = v
 	}
+	t0 := time.Now()
 	outs := make([]*workerOut, W)
 	var wg sync.WaitGroup
 	for k := 0; k < W; k++ {
@@ -268,6 +270,7 @@ func main() {
 		}(k)
 	}
 	wg.Wait()
+	tWorkers := time.Since(t0)
 	var hits, samp []hit
 	spawns := 0
 	for _, o := range outs {
@@ -352,17 +355,20 @@ func main() {
 		recNames = append(recNames, fmt.Sprintf("%s [%s %s, %d bytes]", r.Name, r.Side, r.Mode, len(r.Body)))
 		recBytes += len(r.Body) + 1
 	}
+	if os.Getenv("VERIF_C07_TIMING") != "" {
+		fmt.Fprintf(os.Stderr, "timing: workers %v, total %v\n", tWorkers, time.Since(t0))
+	}
 	fmt.Printf("C07 %s: %d cases (%d A1 over %d hostile bodies, %d A2 over %d recorded bodies / %d cut points), %d workers, %d worker starts, %d violating cases, %d fingerprints\n",
-		rep.Tier, total, sp.nA1, len(sp.hostile), sp.nA2, len(sp.recs), recBytes, W, spawns, len(hits), len(perFP))
+		rep.Tier, total, sp.nA1, sp.hostile.len(), sp.nA2, len(sp.recs), recBytes, W, spawns, len(hits), len(perFP))
 	os.Exit(rep.Finish("fault_enumeration", map[string]interface{}{
 		"evaluations":         total,
 		"distinct_nontrivial": len(distinct),
-		"rule": "A1: every sequence of <=3 frames over the frame alphabet (12 prefixes x payload lengths {0,n-1,n,n+1} (n<=5) or {0,7} (huge) x valid/invalid payloads; byte-identical bodies once) plus every byte string of length <=5 over {00,01,7F,80,FF}, each fed to client stream (server-streaming and single-response) and server stream (client-streaming and single-request); " +
+		"rule": "A1: every sequence of <=3 frames over the frame alphabet (12 prefixes x payload lengths {0,n-1,n,n+1} (n<=5) or {0,7} (huge) x valid/invalid payloads) plus every byte string of length <=5 over {00,01,7F,80,FF}, each fed to client stream (server-streaming and single-response) and server stream (client-streaming and single-request); " +
 			"A2: every byte offset of every distinct recorded genuine body, clean and abrupt ending. thorough adds abrupt endings for A1, three delivery patterns of the body reader, long messages and a second error outcome. " +
 			"A case is non-trivial when the reference decoder stops anywhere but at a complete trailer frame (client) / a clean end of a whole request (server), i.e. the decoder must validate a prefix, classify an EOF or detect a cut; distinct by (side, mode, ending, body bytes).",
 		"nontrivial_by_class":   byClass,
 		"frame_alphabet":        sp.nFrameSyms,
-		"hostile_bodies":        len(sp.hostile),
+		"hostile_bodies":        sp.hostile.len(),
 		"recorded_bodies":       recNames,
 		"cut_points":            recBytes,
 		"violating_cases":       len(hits),
